@@ -32,7 +32,9 @@ RULE = (
     "((90-phi)%360 | (270-phi)%360, +-(90-|theta|)) in plain decimal arithmetic); all pairs of a 16-point "
     "subset.  shiftlon: full product lon alphabet x shift alphabet (incl. None, int and float, |shift| > 360, "
     "shifts that leave lon-shift a tiny negative number) x wrap x {shiftlon,shiftra} x {scalar, ndarray "
-    "windows, list}."
+    "windows, list}.  shiftlon-folds: shift alphabet (20 magnitudes x both signs, int and float, beyond one turn) "
+    "x every double within 4 ulps of the fold point of that shift (shift mod 360), of 360 - fold, of 0 and of 360 "
+    "(180 for the wrap) x {shiftlon,shiftra} x {scalar, whole ladder as ndarray, list}."
 )
 ASSUMPTIONS = [
     "reference rotations are built in 80-bit long double from the constants documented in the euler "
@@ -1090,6 +1092,68 @@ def main(ctx):
     ctx.lattice("shiftlon", shunits, guarded(one_shift), expand=expand_shift,
                 fpstrict=True, bounds=dict(lons=LONS, shifts=[repr(s) for s in SHIFTS], wrap=[True, False],
                             functions=["shiftlon", "shiftra"]))
+
+    # ------------------------------------------------------------ shiftlon / shiftra next to the fold
+    # For every shift of a small alphabet (both signs, int and float, beyond one turn, fractions that are not
+    # binary) the longitudes 0..FOLD_ULPS representable doubles below and above the FOLD POINT of that shift (the
+    # longitude at which lon - shift reaches a multiple of 360: the result has to jump from just under 360 to 0
+    # there), plus the same ladder at the ends of the input interval (0 and the double below 360) and, for the
+    # wrap, around 180.  The sum/difference near 360 is rounded on a coarser grid than the input, so a decision
+    # taken on anything but the final value shows up only on this ladder.  Reference: the same shift_oracle
+    # (long double congruence, half-open range) - never esutil.
+    FOLD_ULPS = 4
+    FOLD_MAGS = [10, 90, 180, 260, 310, 350, 359, 725, 980, 7.5, 352.5, 0.1, 0.3, 1e-3, 123.456, 33.3, 299.7,
+                 359.9, 1082.5, round(gen[2][0], 2)]
+    FOLD_SHIFTS = []
+    for m in FOLD_MAGS:
+        FOLD_SHIFTS += [m, -m]
+        if isinstance(m, int):
+            FOLD_SHIFTS += [float(m), -float(m)]
+
+    def ulp_ladder(x, k):
+        """x and its k neighbours on each side, kept inside [0,360); python floats"""
+        out = [x] if 0.0 <= x < 360.0 else []
+        lo = hi = x
+        for _ in range(k):
+            lo = math.nextafter(lo, -math.inf)
+            hi = math.nextafter(hi, math.inf)
+            if 0.0 <= lo < 360.0:
+                out.insert(0, lo)
+            if 0.0 <= hi < 360.0:
+                out.append(hi)
+        return out
+
+    def fold_lons(shift):
+        if shift is None:
+            centres = [180.0, 0.0, 360.0]
+        else:
+            f = math.fmod(float(shift), 360.0)      # exact
+            if f < 0:
+                f += 360.0                          # exact or the nearest double to the fold
+            centres = [f, 0.0, 360.0]
+            if f != 0.0:
+                centres.append(360.0 - f)           # fold point of the opposite shift: result lands next to 2f/0
+        lons = []
+        for c in centres:
+            lons += ulp_ladder(c, FOLD_ULPS)
+        return dedupe(lons)
+
+    funits = [(fname, shift) for fname in ("shiftlon", "shiftra") for shift in [None] + FOLD_SHIFTS]
+
+    def expand_fold(u):
+        fname, shift = u
+        lons = fold_lons(shift)
+        for wrap in ((True, False) if shift is None else (True,)):
+            for lon in lons:
+                yield (fname, "scalar", (lon,), shift, wrap)
+            # the ladder as one array (the fold decision is taken per element), framed by ordinary values
+            yield (fname, "ndarray", tuple([1.0] + lons + [200.0]), shift, wrap)
+            yield (fname, "list", tuple(lons[:5]), shift, wrap)
+
+    ctx.lattice("shiftlon-folds", funits, guarded(one_shift), expand=expand_fold,
+                fpstrict=True, bounds=dict(shifts=[repr(s) for s in [None] + FOLD_SHIFTS], ulps_each_side=FOLD_ULPS,
+                            ladders="fold point (shift mod 360), 360 - fold point, 0, 360 (inside [0,360)); 180 for the wrap",
+                            functions=["shiftlon", "shiftra"], forms=["scalar", "ndarray", "list"]))
 
     # ------------------------------------------------------------ chains (E2)
     EDGES = {
